@@ -764,6 +764,11 @@ def explore_c16(tier, seed):
                             "inputs_stocks": "_inputs_evolution", "limiting_inputs": "_limiting_inputs_evolution",
                             "productive_capital_to_recover": "_regional_sectoral_productive_capital_destroyed_evolution"}[r]
                     arr = np.asarray(getattr(sim, attr))
+                    if arr.ndim == 0 or arr.shape[0] < T:
+                        ok_pattern = False
+                        viol(res, "C16", f"record {r} was not allocated for the {T} temporal units of the run (shape {arr.shape}) although it is tracked "
+                                         f"(register_stocks={reg}, saved={r in saved})", case={"saved": saved, "stocks": reg})
+                        continue
                     fill_is = (lambda row: bool(np.all(row == -1))) if r == "limiting_inputs" else (lambda row: bool(np.all(np.isnan(row))))
                     written_model = set(ans["written"][r])
                     any_row = False
@@ -817,6 +822,10 @@ def explore_c16(tier, seed):
                                               "ends": ends, "saved": saved, "stocks": reg})
                 if len(res["samples"]) < 2:
                     res["samples"].append({"scenario": scen.summarize(sc), "saved": saved, "register_stocks": reg, "manual": manual, "ends": ends})
+            except Exception as e:
+                # running a valid scenario and reading its records back must not raise
+                viol(res, "C16", f"exception while running / reading back the records (register_stocks={reg}, saved={saved}): {type(e).__name__}: {str(e)[:160]}",
+                     case={"saved": saved, "stocks": reg, "scenario": scen.summarize(sc)})
             finally:
                 try:
                     del sim
